@@ -10,6 +10,8 @@ import (
 	"encoding/json"
 	"fmt"
 	"os"
+	"regexp"
+	"sync"
 	"testing"
 )
 
@@ -118,4 +120,31 @@ func vParams(t *testing.T, kv [][3]string) {
 	if err := os.WriteFile(p, b, 0o644); err != nil {
 		t.Fatal(err)
 	}
+}
+
+
+// vCanonNames maps identifiers that the tree under check renamed back to the names the harness and the model know.
+// The driver sets VERIF_RENAMES (JSON: new name -> old name) only when it had to re-bind the harness after a rename of
+// unexported identifiers; otherwise s is returned unchanged.  Use it on function names and stack dumps read at run time.
+var (
+	vRenOnce sync.Once
+	vRen     map[string]string
+	vRenRx   = regexp.MustCompile(`[A-Za-z_][A-Za-z0-9_]*`)
+)
+
+func vCanonNames(s string) string {
+	vRenOnce.Do(func() {
+		if j := os.Getenv("VERIF_RENAMES"); j != "" {
+			_ = json.Unmarshal([]byte(j), &vRen)
+		}
+	})
+	if len(vRen) == 0 {
+		return s
+	}
+	return vRenRx.ReplaceAllStringFunc(s, func(id string) string {
+		if o, ok := vRen[id]; ok {
+			return o
+		}
+		return id
+	})
 }
